@@ -285,7 +285,7 @@ def check_input(case, rec):
 # ---------------------------------------------------------------------------
 # histories
 
-OPS = ["gen_seed", "gen_same", "gen_nan", "set_pos", "new_values", "new_cond", "model_inplace", "reassign", "mutate_pos", "shift_pos", "gen_other_store"]
+OPS = ["gen_seed", "gen_same", "gen_nan", "set_pos", "new_values", "new_cond", "model_inplace", "reassign", "mutate_pos", "shift_pos", "gen_other_store", "krige_direct"]
 
 
 @st.composite
@@ -308,6 +308,10 @@ def gen_history(draw, tier="quick"):
             op["with_pos"] = draw(st.booleans())
         elif k in ("gen_same", "gen_nan", "gen_other_store"):
             op["with_pos"] = draw(st.booleans())
+            if k == "gen_other_store":
+                op["which"] = draw(st.sampled_from(["both", "store", "krige_store"]))
+        elif k == "krige_direct":
+            op["return_var"] = draw(st.booleans())
         elif k == "new_values":
             op["vals"] = draw(st.lists(st.floats(lo, hi), min_size=ncond, max_size=ncond))
         elif k == "new_cond":
@@ -367,8 +371,10 @@ def check_history(case, rec):
                     elif k == "gen_same":
                         kw["seed"] = int(str(seed))
                     elif k == "gen_other_store":
-                        kw["store"] = ["f2", "r2", "k2"]
-                        kw["krige_store"] = ["kf2", "kv2"]
+                        if op.get("which", "both") in ("both", "store"):
+                            kw["store"] = ["f2", "r2", "k2"]
+                        if op.get("which", "both") in ("both", "krige_store"):
+                            kw["krige_store"] = ["kf2", "kv2"]
                     if op.get("with_pos") or not pos_set:
                         f = cs(caller_pos, **kw, **call_kwargs(cfg, caller_pos))
                         pos_set = True
@@ -396,6 +402,10 @@ def check_history(case, rec):
                         err = float(np.max(errv))
                         rec.discrepancy("formula", float(np.max(errv / tolv)), 1.0)
                         require(bool(np.all(errv <= tolv)), f"{where}: differs from kriging (direct solve) + scaled raw field by {err:.3g} (tol {float(np.max(tolv)):.3g})", dict(otags, kind="formula"))
+                elif k == "krige_direct":
+                    # the user evaluates the kriging object of the conditioned field directly (it stores its own results)
+                    if pos_set:
+                        krige(return_var=op["return_var"], **call_kwargs(cfg, cur_pos))
                 elif k == "set_pos":
                     caller_pos = cur_pos + np.array(op["shift"])[:, None]
                     cs.set_pos(caller_pos)
@@ -475,6 +485,10 @@ def gen_nugget(draw, tier="quick"):
     dim = case["spec"]["dim"]
     n = draw(st.integers(1, 4))
     case["pos"] = draw(gens.point_cloud(dim, n_min=n, n_max=n, kinds=("cloud",), scale=max(1.0, case["spec"]["len_scale"])))
+    if draw(st.booleans()):
+        # one target far away from all data (far-field clause under simple kriging)
+        far = 1e3 * max(1.0, case["spec"]["len_scale"])
+        case["pos"] = [row + [far * (i + 1)] for i, row in enumerate(np.array(case["pos"], dtype=float).reshape(dim, -1).tolist())]
     return case
 
 
@@ -522,6 +536,50 @@ def check_nugget(case, rec):
                 "two seeds give identical conditioned fields away from the data",
                 dict(tags, kind="no_randomness"),
             )
+        # the random part: field - estimate = a(x) * smooth unconditional field + b(x) * nugget noise of the same seed, with
+        # seed-independent a, b whose variance a^2 var + b^2 nugget is the kriging variance ("scaled by the kriging standard
+        # deviation"); where simple kriging has decayed (variance = sill) the field is mean + the whole unconditional field.
+        # a, b are solved per target from the fields of the generated seeds.
+        if nt and kc_ <= 1e6:
+            kw = call_kwargs(cfg, pos)
+            k2 = lib(mk_krige, model, cfg, cond_pos.copy(), cond_val.copy(), _tags=tags)
+            est, kv = lib(k2, pos.copy(), post_process=False, _what="Krige.__call__", _tags=tags, **kw)
+            m0 = build_model(dict(spec, nugget=0.0))
+            R, U, N = [], [], []
+            for sd in case["seeds"]:
+                raw = np.asarray(lib(cs, pos.copy(), seed=sd, post_process=False, _tags=tags, **kw), dtype=float)
+                u = np.asarray(gs.SRF(model, seed=sd, mode_no=case["mode_no"])(pos.copy()), dtype=float)
+                u0 = np.asarray(gs.SRF(m0, seed=sd, mode_no=case["mode_no"])(pos.copy()), dtype=float)
+                R.append(raw - est)
+                U.append(u0)
+                N.append(u - u0)
+            R, U, N = np.array(R), np.array(U), np.array(N)
+            var_, nug_ = spec["var"], spec["nugget"]
+            tolv = 1e-5 * sill_ * (1.0 + float(np.max(np.abs(cond_val))))
+            for j in range(nt):
+                A = np.stack([U[:, j], N[:, j]], axis=1)
+                if not np.all(np.isfinite(A)) or np.linalg.cond(A) > 1e3:
+                    rec.label("split_ill_conditioned")
+                    continue
+                (a, b), *_ = np.linalg.lstsq(A, R[:, j], rcond=None)
+                got = a * a * var_ + b * b * nug_
+                rec.label("variance_split_solved")
+                rec.discrepancy("variance_split", abs(got - kv[j]), tolv)
+                if len(case["seeds"]) > 2:
+                    res = float(np.max(np.abs(A @ np.array([a, b]) - R[:, j])))
+                    require(res <= tolv, f"conditioned field minus estimate is not a fixed combination of the smooth field and the nugget noise of the same "
+                            f"seed (residual {res:.3g} over {len(case['seeds'])} seeds)", dict(tags, kind="nugget_split_residual"))
+                require(
+                    abs(got - kv[j]) <= tolv,
+                    f"with a nugget the random part of the conditioned field has variance a^2 var + b^2 nugget = {got:.6g} (a = {a:.6g} on the smooth "
+                    f"field, b = {b:.6g} on the nugget noise) but the kriging variance there is {float(kv[j]):.6g}",
+                    dict(tags, kind="nugget_variance_split"),
+                )
+                if cfg["variant"] == "simple" and kv[j] >= sill_ * (1 - 1e-9):
+                    rec.label("far_field_with_nugget")
+                    require(abs(a - 1) <= 1e-4 and abs(b - 1) <= 1e-4,
+                            f"far from the data (kriging variance = sill) the conditioned field is not mean + unconditional field: a = {a:.6g}, b = {b:.6g}",
+                            dict(tags, kind="nugget_far_field"))
     rec.nontrivial(cond_pos.shape[1] >= 2)
 
 
